@@ -59,6 +59,9 @@ type StateDB struct {
 	// `writeCacheCtx` is called.
 	cacheCtx sdk.Context
 
+	// cacheStore is the multistore of cacheCtx. See [cacheMultiStore].
+	cacheStore *cacheMultiStore
+
 	// writeToCommitCtxFromCacheCtx is the "write" function received from
 	// `s.evmTxCtx.CacheContext()`. It saves mutations on s.cacheCtx to the StateDB's
 	// commit context (s.evmTxCtx). This synchronizes the multistore and event manager
@@ -595,11 +598,29 @@ func (s *StateDB) commitCtx(ctx sdk.Context, final bool) error {
 	return nil
 }
 
+// cacheMultiStore is the multistore of [StateDB.cacheCtx]: a cell holding the
+// cache multistore that is written to the commit context at the end of the
+// transaction. Every context handed to a precompile refers to this one cell,
+// and [PrecompileCalled.Revert] replaces the store inside of it. A precompile
+// that is still running while a nested precompile call is reverted (the ERC20
+// contract called by the FunToken precompile may call precompiles itself)
+// therefore keeps reading from and writing to the store that gets committed
+// instead of the discarded one.
+type cacheMultiStore struct {
+	current
+}
+
+// current names the embedded field of [cacheMultiStore]. A field called
+// CacheMultiStore would hide the method of that name that must be promoted.
+type current = store.CacheMultiStore
+
 func (s *StateDB) CacheCtxForPrecompile() (
 	sdk.Context, PrecompileCalled,
 ) {
 	if s.writeToCommitCtxFromCacheCtx == nil {
 		s.cacheCtx, s.writeToCommitCtxFromCacheCtx = s.evmTxCtx.CacheContext()
+		s.cacheStore = &cacheMultiStore{s.cacheCtx.MultiStore().(store.CacheMultiStore)}
+		s.cacheCtx = s.cacheCtx.WithMultiStore(s.cacheStore)
 	}
 	cachedObjects := make(map[common.Address]struct{}, len(s.stateObjects))
 	for addr := range s.stateObjects {
@@ -610,7 +631,7 @@ func (s *StateDB) CacheCtxForPrecompile() (
 		dirties[addr] = count
 	}
 	return s.cacheCtx, PrecompileCalled{
-		MultiStore:    s.cacheCtx.MultiStore().(store.CacheMultiStore).Copy(),
+		MultiStore:    s.cacheStore.Copy(),
 		Events:        s.cacheCtx.EventManager().Events(),
 		cachedObjects: cachedObjects,
 		dirties:       dirties,
